@@ -95,6 +95,24 @@ def same_digest(a, b):
     return a == b
 
 
+def exact_diffs(a, b, path=""):
+    """places where the plain (b) value is not the exact rational the symbolic run (a) computed:
+    returns [(path, symbolic, plain)]"""
+    out = []
+    if isinstance(a, list) and len(a) == 2 and a[0] in ("q", "f") and isinstance(a[1], str):
+        if a[0] == "q" and isinstance(b, list) and (b[0] != "q" or Fraction(b[1]) != Fraction(a[1])):
+            out.append((path, a, b))
+        return out
+    if isinstance(a, dict) and isinstance(b, dict):
+        for k in a:
+            if k in b:
+                out += exact_diffs(a[k], b[k], path + "/" + k)
+    elif isinstance(a, list) and isinstance(b, list):
+        for i, (x, y) in enumerate(zip(a, b)):
+            out += exact_diffs(x, y, path + f"/{i}")
+    return out
+
+
 def fr(s):
     return Fraction(s)
 
@@ -242,7 +260,7 @@ def run_symbolic(spec):
             names, fn, domain=dom, on_leaf=on_leaf,
             max_paths=spec.get("max_paths", 20000), time_budget=spec.get("time_budget"),
             raw=getattr(scn, "raw", False), timeout_ms=getattr(scn, "timeout_ms", 10000),
-            max_decisions=getattr(scn, "max_decisions", 20000), path_timeout=getattr(scn, "path_timeout", 120),
+            max_decisions=getattr(scn, "max_decisions", 20000), path_timeout=getattr(scn, "path_timeout", 120), max_degree=getattr(scn, "max_degree", 6),
         )
         res["stats"] = stats
         res["functions"] = sorted(entered)
